@@ -458,6 +458,8 @@ func (t *tailPlugin) PostReadPushHeader(erpc.ReadCtx) *erpc.Status {
 
 const quiesce = 10 * time.Second
 
+var quiesceFailures int
+
 // faultyConn closes the connection and then REPORTS a failure, as a tls.Conn does when its
 // close_notify cannot be written or a wrapping conn whose peer is already gone: the end of a
 // session must not depend on what Close returns.
@@ -676,7 +678,12 @@ func caseLive(cfg *RunCfg, st *Stats, w *CaseWriter, idx int) string {
 			human = append(human, fmt.Sprintf("dup(%v)", len(done) > 0))
 		}
 		// quiescence: every disconnect hook delivered, session hub settled
-		if !WaitUntil(quiesce, func() bool { return atomic.LoadInt64(&tail.disc) >= hooks && srv.CountSession() <= len(live) }) {
+		qw := quiesce
+		if quiesceFailures >= 3 {
+			qw = time.Second // the failure is established; do not spend ten seconds on every further one
+		}
+		if !WaitUntil(qw, func() bool { return atomic.LoadInt64(&tail.disc) >= hooks && srv.CountSession() <= len(live) }) {
+			quiesceFailures++
 			fail("no-quiescence", fmt.Sprintf("disconnect hooks seen %d, expected %d, CountSession %d, live %d", atomic.LoadInt64(&tail.disc), hooks, srv.CountSession(), len(live)))
 			// a missing hook never arrives later: do not wait for it again and again
 			hooks = atomic.LoadInt64(&tail.disc)
